@@ -107,6 +107,7 @@ Definition val_encodable (f : tfield) (v : tval) : Prop :=
   | FB64RestOpt, VBytes b => zlen b <= 65535
   | FMac, VBytes b => zlen b <= 65535
   | FOther, VBytes b => zlen b <= 65535
+  | FGposStr, VBytes b => zlen b <= 255
   | _, _ => True
   end.
 
@@ -138,7 +139,7 @@ Qed.
 Theorem parse_field_encodable c f st raw st' v :
   parse_field c f st = Ok (raw, st') -> ctor_field f raw = Ok v -> val_encodable f v.
 Proof.
-  destruct f as [maxv| |tokmax ctormax ne| | |sc| |v6| | | | | |k| |maxc| |en| | | | |bmax| | | |ipsec| | |]; cbn [parse_field]; intros H Hc.
+  destruct f as [maxv| |tokmax ctormax ne| | |sc| |v6| | | | | |k| |maxc| |en| | | | |bmax| | | |ipsec| | | |]; cbn [parse_field]; intros H Hc.
   - unfold get_uint, as_uint in H.
     destruct (get_unescaped st) as [[t s1]| |]; cbn [bind fst snd] in H; try discriminate.
     destruct (as_int t 10) as [z| |]; cbn [bind fst snd] in H; try discriminate.
@@ -222,6 +223,10 @@ Proof.
       cbn [ctor_field] in Hc. inversion Hc; subst. cbn [val_encodable].
       apply Z.eqb_eq in E. pose proof (get_uint_range _ _ _ _ En). unfold max16 in *. lia.
     + inversion H; subst. cbn [ctor_field] in Hc. inversion Hc; subst. cbn [val_encodable]. unfold zlen. cbn. lia.
+  - (* FGposStr *)
+    destruct (get_string st 0) as [[t s1]| |]; cbn [bind fst snd] in H; try discriminate. inversion H; subst.
+    cbn [ctor_field] in Hc. destruct (utf8_encode t) as [e| |]; cbn [bind] in Hc; try discriminate.
+    destruct (zlen e >? 255) eqn:E; try discriminate. inversion Hc; subst. cbn [val_encodable]. lia.
 Qed.
 
 (* names accepted from text satisfy the DNS limits (hence to_wire with an origin cannot fail on length) *)
